@@ -269,6 +269,24 @@ impl<F: Write + Seek> Allocator<F> {
     /// Adds a new sector to the FAT chain at the end of the file, and updates
     /// the FAT and DIFAT accordingly.
     fn append_fat_sector(&mut self) -> io::Result<()> {
+        // If any step fails, forget the in-memory part of what was done so
+        // far, so that a retry starts over with the same sector numbers.
+        // Otherwise memory would already count a FAT sector whose DIFAT entry
+        // or header count never reached the file, and later successful
+        // flushes would leave a file that cannot be opened.
+        let fat_len = self.fat.len();
+        let difat_len = self.difat.len();
+        let difat_sectors_len = self.difat_sector_ids.len();
+        let result = self.try_append_fat_sector();
+        if result.is_err() {
+            self.fat.truncate(fat_len);
+            self.difat.truncate(difat_len);
+            self.difat_sector_ids.truncate(difat_sectors_len);
+        }
+        result
+    }
+
+    fn try_append_fat_sector(&mut self) -> io::Result<()> {
         // Add a new FAT sector to the end of the file.
         let new_fat_sector_id = self.fat.len() as u32;
         self.sectors.init_sector(new_fat_sector_id, SectorInit::Fat)?;
